@@ -80,10 +80,33 @@ def rule_regkey(ctx) -> RuleResult:
             elif isinstance(n, ast.Call) and norm(n.func) == "getattr" and len(n.args) == 2 and not isinstance(n.args[1], ast.Constant) \
                     and norm(n.args[0]) in ("aggregate_flox", "aggregate_npg", "aggregate_numbagg"):
                 kind, exc = norm(n), "AttributeError"
+            elif isinstance(n, ast.Call) and norm(n.func) == "getattr" and len(n.args) == 2 and isinstance(n.args[1], ast.Name) \
+                    and n.args[1].id in f.params and n.args[1].id in ("func", "name", "method", "reduction"):
+                # a user-supplied name looked up on an object that is not flox's (xarray's Dataset, say)
+                kind, exc = norm(n), "AttributeError"
             if kind is None:
                 continue
             pm = pm or parents_map(f.node)
             guarded = False
+            if norm(n.func) == "getattr" if isinstance(n, ast.Call) else False:
+                probe = f"hasattr({norm(n.args[0])}, {norm(n.args[1])})"
+                from ..astutil import guard_facts
+                if any(at == probe and pol for at, pol in guard_facts(n, pm)):
+                    guarded = True
+                # ... or an earlier `if not hasattr(obj, name): raise <allowed>` in an enclosing block
+                cur = n
+                while cur is not None and not guarded:
+                    par = pm.get(id(cur))
+                    for fld in ("body", "orelse"):
+                        blk = getattr(par, fld, None) if par is not None else None
+                        if isinstance(blk, list) and any(cur is x for x in blk):
+                            for st in blk:
+                                if st is cur:
+                                    break
+                                if isinstance(st, ast.If) and probe in norm(st.test) and norm(st.test).startswith("not ") \
+                                        and any(isinstance(r, ast.Raise) for r in ast.walk(st)):
+                                    guarded = True
+                    cur = par
             for a in ancestors(n, pm):
                 if isinstance(a, ast.Try):
                     # the lookup must be in the try *body*
@@ -292,7 +315,7 @@ OUTSIDE = "outside the documented input contract"
 GUARDED = "guarded"   # invariant only because a named refusal dominates: 'function|guard text fragment|what the user would do'
 
 ASSERT_TABLE = {
-    ("aggregate_flox._prepare_for_flox", "array.shape[-1] == group_idx.shape[0]"): (INV, "chunk_reduce reshapes array and group_idx to the same trailing length"),
+    ("aggregate_flox._prepare_for_flox", "array.shape[-1] == group_idx.shape[0]"): (INV, "chunk_reduce reshapes array and group_idx to the same trailing length; labels with size-1 dimensions are broadcast first (chunk_reduce for full reductions, groupby_reduce's partial-axis branch: R-PAIRS[broadcast] -- without that broadcast this assert was user-reachable, F25)"),
     ("aggregate_flox.ffill", "axis == ndim - 1"): (INV, "chunk_scan/scan_binary_op pass axis = ndim-1; groupby_scan normalises a single axis"),
     ("aggregations._atleast_1d", "len(inp) >= min_length"): (OUTSIDE, "isbin / dtype / fill sequences shorter than the number of groupers: misaligned arguments"),
     ("aggregations.AlignedArrays.__post_init__", "self.array.shape[-1] == self.group_idx.size"): (GUARDED, "core.groupby_scan|by_.shape[-1] != array.shape[-1]|groupby_scan with labels of another length than the scanned axis (and, by the refusal above it, n-D labels)"),
